@@ -103,6 +103,14 @@ CLAIMED["C04"] = dict(
     note=TRUST + " The claimed level is exploration with proved parts; polymorphic recursion diverging in mono is a known finding.",
 )
 
+CLAIMED["C07"] = dict(
+    category="translation_validation",
+    technique="per-program translation validation against the property's own wording: each generated generic program P is paired with P' (every generic definition copied per instantiation with its type parameters substituted textually); the real Go AST of P and the real typed tree of P' are executed by the Coq semantics (Sem/GoSem.v, Sem/Src.v) inside coqc and must behave alike; the real Mono program of P is inspected for residue, name uniqueness and the exact instance set",
+    text="23 generic items (unbounded and trait-bounded functions, generic-calls-generic at derived types, same-instance recursion, closures over T, inherent methods of generic types, a concrete impl overlapping a generic one) instantiated at nested concrete types; Go(P) must behave like the substituted P' and Mono(P) must contain no TParam/TVar/TApp, unique names and exactly the reachable instances under the names spec_name_for assigns. mono_correct is not proved; non-termination on polymorphic recursion is a known finding.",
+    design_ref="DESIGN.md §4 C07",
+    note=TRUST + " Sem/GoSem.v is a model of Go and Sem/Src.v the source-level meaning (both validated against outputs recorded from real Go); textual substitution in the generator defines the meaning of an instance. Validation per program, not a proof about all programs.",
+)
+
 NOT_YET = {}
 
 def main():
